@@ -506,14 +506,34 @@ package originium
 //@ field originium.oracle.commitMark immutable
 //
 // functions that are documented as "call with lock"
+// C14 / C03 (write-ahead ordering of compaction): the merged table is created, completely written
+// and fsynced before the first input file is removed. Thin contracts: only the assertions below and
+// the preconditions of the os calls are claimed for these two functions; the functional part of
+// their bodies (which tables are selected, what the merged table contains) is not under contract.
+//@ func (*originium.levelManager).fileName -> r
+//@ trusted path.Join/fmt.Sprintf of the directory and "<level>-<idx>.db": no effect on the heap; the result is left unconstrained
+//@ assigns nothing
+//@ ghost CompOut Str
+//@ ghost CompCreated Bool
+//@ define outDurable(bytes) = CompCreated && DskSync[CompOut] == len(DskData[CompOut]) && DskData[CompOut] == string(bytes) && len(bytes) == len(DskData[CompOut])
 //@ func (*originium.levelManager).compactL0
-//@ props C12
-//@ trusted no functional contract yet (C09 compaction glue); only the lock clause below is used, and it is checked on the body by the C12 sweep
+//@ props C12 C14 C03
 //@ holds lm.mu
+//@ thin ^assert|^pre\.os\.|^pre\..*os\.File
+//@ assigns everything
+//@ after_call os.OpenFile#0: ghost CompOut = FdPath[ref(result0)]
+//@ after_call os.OpenFile#0: ghost CompCreated = (result1 == nil)
+//@ before_call os.Remove#0: assert outDurable(tableBytes)
+//@ before_call os.Remove#1: assert outDurable(tableBytes)
 //@ func (*originium.levelManager).compactLN
-//@ props C12
-//@ trusted no functional contract yet (C09 compaction glue); only the lock clause below is used, and it is checked on the body by the C12 sweep
+//@ props C12 C14 C03
 //@ holds lm.mu
+//@ thin ^assert|^pre\.os\.|^pre\..*os\.File
+//@ assigns everything
+//@ after_call os.OpenFile#0: ghost CompOut = FdPath[ref(result0)]
+//@ after_call os.OpenFile#0: ghost CompCreated = (result1 == nil)
+//@ before_call os.Remove#0: assert outDurable(tableBytes)
+//@ before_call os.Remove#1: assert outDurable(tableBytes)
 //@ func (*originium.levelManager).overlapL0
 //@ props C12
 //@ trusted no functional contract yet (C09 compaction glue); only the lock clause below is used, and it is checked on the body by the C12 sweep
